@@ -134,6 +134,9 @@ impl InFlightRequestRecorder for RecData {
 struct RecGlobal {
     market: Vec<(u64, u64, usize)>, // (stream instance, seq, instrument)
     account: Vec<String>,           // tagged account items in processing order (no timestamps)
+    /// per fill: (sequence number of the last market item this engine had processed when the fill arrived, or -1;
+    /// the fill's exchange time in ms after t0)
+    trade_times: Vec<(i64, i64)>,
 }
 impl Processor<&MarketEvent<InstrumentIndex, Tick>> for RecGlobal {
     type Audit = ();
@@ -158,7 +161,10 @@ impl Processor<&AccountEvent> for RecGlobal {
                 format!("order cid={} strategy={} state={state}", o.0.key.cid.0, o.0.key.strategy.0)
             }
             AccountEventKind::OrderCancelled(r) => format!("cancel cid={}", r.key.cid.0),
-            AccountEventKind::Trade(t) => format!(
+            AccountEventKind::Trade(t) => {
+                let last = self.market.last().map(|m| m.1 as i64).unwrap_or(-1);
+                self.trade_times.push((last, t.time_exchange.signed_duration_since(fixtures::t0()).num_milliseconds()));
+                format!(
                 "trade id={} oid={} strategy={} instr={} side={:?} price={} qty={} fee={}",
                 t.id.0,
                 t.order_id.0,
@@ -168,7 +174,8 @@ impl Processor<&AccountEvent> for RecGlobal {
                 t.price.normalize(),
                 t.quantity.normalize(),
                 t.fees.fees.normalize()
-            ),
+            )
+            }
         };
         self.account.push(s);
     }
@@ -200,9 +207,13 @@ fn gate_of(gates: &Gates, stream: u64) -> Arc<Gate> {
 
 #[derive(Debug, Clone)]
 struct Dataset {
-    /// (instrument, price), event k has exchange time t0 + (k+1) s
+    /// (instrument, price), event k has exchange time t0 + (k+1) h
     events: Arc<Vec<(usize, Decimal)>>,
 }
+
+/// Exchange time between consecutive dataset entries: one hour, far more than any run lasts in wall time, so
+/// the historical time a backtest has REACHED is unmistakable in the timestamps of its fills.
+const SPACING_MS: i64 = 3_600_000;
 
 /// Dataset entries with this "instrument" are `MarketStreamEvent::Reconnecting` markers (recorded market
 /// data of a live system contains them wherever the venue connection dropped).
@@ -213,8 +224,8 @@ fn market_event(stream: u64, seq: u64, instr: usize, price: Decimal) -> MarketSt
         return MarketStreamEvent::Reconnecting(ExchangeId::BinanceSpot);
     }
     MarketStreamEvent::Item(MarketEvent {
-        time_exchange: fixtures::t((seq as i64 + 1) * 1000),
-        time_received: fixtures::t((seq as i64 + 1) * 1000),
+        time_exchange: fixtures::t((seq as i64 + 1) * SPACING_MS),
+        time_received: fixtures::t((seq as i64 + 1) * SPACING_MS),
         exchange: ExchangeId::BinanceSpot,
         instrument: InstrumentIndex(instr),
         kind: Tick { stream, seq, price },
@@ -290,6 +301,7 @@ struct Params {
 struct Obs {
     market: Vec<(u64, u64, usize)>,
     account: Vec<String>,
+    trade_times: Vec<(i64, i64)>,
     calls: u64,
     sent: u64,
     final_positions: Vec<Option<(String, String, String, String)>>, // (side, qty, entry, pnl_realised)
@@ -331,6 +343,8 @@ impl AlgoStrategy for BtStrategy {
         obs.market.extend_from_slice(&state.global.market[have.min(state.global.market.len())..]);
         let have = obs.account.len();
         obs.account.extend_from_slice(&state.global.account[have.min(state.global.account.len())..]);
+        let have = obs.trade_times.len();
+        obs.trade_times.extend_from_slice(&state.global.trade_times[have.min(state.global.trade_times.len())..]);
         obs.final_positions = state
             .instruments
             .instruments(&InstrumentFilter::None)
@@ -509,6 +523,8 @@ struct RunOut {
     obs: Vec<Obs>,
     digests: Vec<Digest>,
     stream_ids: Vec<u64>,
+    /// wall time the whole run took (the historical clock adds wall time to the last event's time)
+    elapsed_ms: i64,
 }
 
 fn run_group(case: &Case, subset: &[usize]) -> Result<RunOut, V> {
@@ -532,6 +548,7 @@ fn run_group(case: &Case, subset: &[usize]) -> Result<RunOut, V> {
     } else {
         tokio::runtime::Builder::new_multi_thread().worker_threads(case.workers).enable_time().build().expect("runtime")
     };
+    let started = std::time::Instant::now();
     let watchdog = if case.workers == 0 { Duration::from_secs(36_000) } else { Duration::from_secs(120) };
     let result = rt.block_on(async {
         if case.gated {
@@ -544,6 +561,7 @@ fn run_group(case: &Case, subset: &[usize]) -> Result<RunOut, V> {
         }
     });
     rt.shutdown_background();
+    let elapsed_ms = started.elapsed().as_millis() as i64;
     let multi = match result {
         Err(_) => return Err(("HARNESS_watchdog", "run_backtests did not finish (gate deadlock or stuck runtime)".into())),
         Ok(Err(e)) => return Err(("run_backtests_failed", format!("{e:?}"))),
@@ -560,7 +578,7 @@ fn run_group(case: &Case, subset: &[usize]) -> Result<RunOut, V> {
         digests.push(digest(&obs[n], s));
         stream_ids.push(obs[n].market.first().map(|m| m.0).unwrap_or(u64::MAX));
     }
-    Ok(RunOut { obs, digests, stream_ids })
+    Ok(RunOut { obs, digests, stream_ids, elapsed_ms })
 }
 
 struct Outcome {
@@ -570,8 +588,24 @@ struct Outcome {
     fills_per_bt: Vec<usize>,
 }
 
-fn judge_single(case: &Case, b: usize, obs: &Obs, dg: &Digest, out: &mut Outcome) -> Result<(), V> {
+fn judge_single(case: &Case, b: usize, obs: &Obs, dg: &Digest, elapsed_ms: i64, out: &mut Outcome) -> Result<(), V> {
     let n = case.events.len();
+    // (0) a backtest lives in ITS OWN historical time: a fill is stamped by this backtest's clock, ie/ with the
+    // time of the last item this engine processed plus at most the wall time the run took - never with a time
+    // only another backtest has reached
+    for (seq, t_ms) in obs.trade_times.iter().filter(|(seq, _)| *seq >= 0) {
+        out.checks += 1;
+        let lag = t_ms - (seq + 1) * SPACING_MS;
+        if lag > elapsed_ms + 1000 || (case.gated && lag < 0) {
+            return Err((
+                "fill_stamped_with_a_time_this_backtest_had_not_reached",
+                format!("backtest bt{b}: a fill carries exchange time t0+{t_ms} ms; the last item its engine had processed when the fill arrived is #{seq} (t0+{} ms) and the whole run took {elapsed_ms} ms of wall time", (seq + 1) * SPACING_MS),
+            ));
+        }
+    }
+    if obs.trade_times.iter().any(|(seq, _)| *seq >= 0) {
+        out.cells.push("fill_time_within_own_historical_time".into());
+    }
     out.events += obs.market.len() as u64 + obs.account.len() as u64;
     out.checks += 3;
     // (i) whole dataset, once, in order, from one stream instance
@@ -710,9 +744,9 @@ fn run_case(case: &Case) -> Result<Outcome, V> {
     let conc = run_group(case, &all)?;
     out.cells.push(format!("runtime:{}", if case.workers == 0 { "current_thread_paused".to_string() } else { format!("multi_thread_{}", case.workers) }));
     out.cells.push(if case.gated { "market_data:gated".into() } else { "market_data:in_memory".into() });
-    out.cells.push(format!("concurrent:{}", match case.params.len() { 1 => "1", 2..=7 => "2-7", 8..=31 => "8-31", _ => "32+" }));
+    out.cells.push(format!("concurrent:{}", match case.params.len() { 1 => "1", 2..=7 => "2-7", 8..=31 => "8-31", 32..=999 => "32+", _ => "1000+" }));
     for (n, b) in all.iter().enumerate() {
-        judge_single(case, *b, &conc.obs[n], &conc.digests[n], &mut out)?;
+        judge_single(case, *b, &conc.obs[n], &conc.digests[n], conc.elapsed_ms, &mut out)?;
         out.fills_per_bt.push(conc.digests[n].fills.len());
     }
     if case.gated {
@@ -728,7 +762,7 @@ fn run_case(case: &Case) -> Result<Outcome, V> {
         for b in probe {
             let solo = run_group(&solo_case, &[b])?;
             out.checks += 1;
-            judge_single(&solo_case, b, &solo.obs[0], &solo.digests[0], &mut out)?;
+            judge_single(&solo_case, b, &solo.obs[0], &solo.digests[0], solo.elapsed_ms, &mut out)?;
             if solo.digests[0] != conc.digests[b] {
                 return Err(("result_differs_between_alone_and_concurrent", format!("bt{b}: alone {:?} vs among {} concurrent {:?}", solo.digests[0], all.len(), conc.digests[b])));
             }
@@ -856,6 +890,17 @@ fn main() {
             };
             execute(&gen_case(rng, workers, gated, small), report);
         }
+        // CROWDS: more than a thousand backtests over one tiny dataset (a parameter sweep); every one of them gets
+        // the whole dataset and a summary of its own
+        if w == 0 && !small && !tsan {
+            let crowds: &[usize] = if args.tier == "thorough" { &[1025, 1101, 1537, 1799, 2049, 3001] } else { &[1101] };
+            for n_bt in crowds {
+                let mut case = gen_case(rng, 4, false, true);
+                let proto = case.params.clone();
+                case.params = (0..*n_bt).map(|k| proto[k % proto.len()].clone()).collect();
+                execute(&case, report);
+            }
+        }
     });
     if !small && !tsan {
         for c in [
@@ -869,8 +914,10 @@ fn main() {
             "concurrent:2-7",
             "concurrent:8-31",
             "concurrent:32+",
+            "concurrent:1000+",
             "solo_vs_concurrent_compared",
             "backtest_with_fills",
+            "fill_time_within_own_historical_time",
             "dataset_with_reconnect_markers",
             "dataset_ends_with_reconnect_marker",
             "dataset_begins_with_reconnect_marker",
